@@ -5,6 +5,7 @@ CONSTANTS
   RootSlots <- Slots1
   Realms = {1}
   MaxOps = 3
+  MaxOps1 = 3
   MaxTx = 2
   OwnerFix = FALSE
   AttachGuard = TRUE
